@@ -15,7 +15,8 @@ func c01Specs() []*bfsSpec {
 	return []*bfsSpec{
 		{Name: "c01-upload", Cfg: worldCfg{Geom: "gshort", Peers: []peerCfg{{Fast: true, Ext: true, DontHave: 7}}, Have: []int{0, 2}, AutoDrain: true},
 			Setup: []string{"interested:0", "unchokepeer:0"},
-			Alphabet: []string{"req:0:0:0:16384", "req:0:0:16384:16384", "req:0:2:0:100", "stall:0", "resume:0", "advms:300", "adv:2", "evict", "ucancel:0", "chokepeer:0", "unchokepeer:0"},
+			// (the last three requests can only partly be satisfied from verified data)
+			Alphabet: []string{"req:0:0:0:16384", "req:0:0:16384:16384", "req:0:2:0:100", "req:0:0:16384:16385", "req:0:2:0:16384", "req:0:0:32767:2", "stall:0", "resume:0", "advms:300", "adv:2", "evict", "ucancel:0", "chokepeer:0", "unchokepeer:0"},
 			Depth: 5, DepthT: 7},
 		{Name: "c01-download-read", Cfg: worldCfg{Geom: "gtail", Peers: []peerCfg{{Fast: true, Ext: true, DontHave: 7}}, AutoDrain: true},
 			Setup: []string{"haveall:0", "unchoke:0", "ropen:0:81921"},
